@@ -241,6 +241,11 @@ TEMPLATES = [
     ('2.0', 'string(/)'), ('2.0', 'data(//a)'), ('2.0', 'for $n in //* return (name($n), string-length(string($n)))'),
     ('3.0', 'innermost(//*) ! name()'), ('3.0', 'path((//b)[last()])'), ('2.0', 'root((//b)[1])/*/@v | //a/@v'),
     ('2.0', 'deep-equal((//a)[1], (//a)[2])'), ('2.0', 'count(//node()) + count(//@*)'),
+    # what depends on the namespaces of the dynamic context (xml.etree trees have no declarations of their own)
+    ('2.0', '/*/namespace::*'), ('2.0', 'count(//namespace::*)'), ('2.0', 'in-scope-prefixes(/*)'),
+    ('2.0', 'string(namespace-uri-for-prefix("p", /*))'), ('2.0', 'for $e in //* return name($e)'),
+    ('2.0', 'string(namespace-uri-from-QName(resolve-QName("p:z", /*)))'), ('3.0', '//namespace-node() ! string(.)'),
+    ('3.0', 'path((//*)[last()])'), ('3.0', 'count(/*/namespace::p)'),
 ]
 
 
@@ -610,7 +615,7 @@ def ctx_of(h: str) -> str:
     return h[5:] if h.startswith('edit:') else h
 
 
-def fresh_outcome(expr: str, P, c: str, n_edits: int, minimal: bool = False):
+def fresh_outcome(expr: str, P, c: str, n_edits: int, minimal: bool = False, entry: str = 'select'):
     """The property's oracle: a freshly parsed expression on a fresh context (same keyword arguments as the reused one)."""
     import elementpath
     ctx = make_context(c)
@@ -619,6 +624,8 @@ def fresh_outcome(expr: str, P, c: str, n_edits: int, minimal: bool = False):
     if minimal:
         return outcome(lambda: proj_result(elementpath.Selector(expr, namespaces={'p': 'urn:p'}, parser=P).select(
             ctx['root'], **call_kw(ctx, True))))
+    if entry == 'iter_select':
+        return outcome(lambda: proj_result(list(elementpath.iter_select(ctx['root'], expr, parser=P, **call_kw(ctx, False)))))
     return outcome(lambda: proj_result(elementpath.select(ctx['root'], expr, parser=P, **call_kw(ctx, False))))
 
 
@@ -650,6 +657,13 @@ def history_worker(job):
                     if key not in fresh:
                         fresh[key] = fresh_outcome(expr, P, c, edits[c], mode == 'selector')
                         n += 1
+                        if mode != 'selector':
+                            # "select yields the same items as iter_select": the two module-level entry points, same arguments
+                            alt = fresh_outcome(expr, P, c, edits[c], False, entry='iter_select')
+                            n += 1
+                            if alt != fresh[key]:
+                                fails.append((dict(part='entrypoints', outcome='iter_select_differs_from_select', template=expr, parser=version),
+                                              dict(part='history', expr=expr, parser=version, mode=mode, hist=list(hist)), fresh[key], alt))
                     obs = outcome(lambda: proj_result(eval_in(obj, mode, ctxs[c])))
                     n += 1
                     feat = None
